@@ -25,6 +25,12 @@ CHECKS = {
  'C07': dict(cat='exploration', tech='differential data-image comparison (bytes, padding, relocations, size, alignment) vs clang --target/gcc objects; run-time member dump of automatic objects (IL executed under ASan)',
              text='Generated (type, initialiser) pairs - positional, designated, mixed, overriding, nested designators, brace elision, strings of every prefix, incomplete arrays, compound literals, address constants - are emitted as static/thread objects and compared byte for byte (relocations symbolically, string targets by content) with clang --target for three targets and gcc; the same generator at block scope prints every scalar leaf at run time and is compared with gcc/clang executions.',
              note='Shapes on which the standard is disputed (re-initialising a whole sub-aggregate after element initialisers, DR 413) are not generated; padding of automatic objects is not compared.', ref='4/C07'),
+ 'C04': dict(cat='exploration', tech='differential observation of folded values in every folding context vs clang --target/gcc objects and an executable C arithmetic model; fold-vs-run execution of the same tree',
+             text='Constant expressions with model-known type and value (all literal forms, casts incl. _Bool and int<->float, every operator, sizeof/_Alignof/offsetof, enum and character constants) are observed as static initialisers of their own and of other types, in _Static_assert (accept and reject), array bounds, enumerators, case-label duplicate detection, bit-field widths, _Alignas, constant ?: conditions and address constants, for three targets; the same trees with operands read from objects are executed and compared with the folded values.',
+             note='References compiled with -pedantic-errors so that overflowing or non-constant expressions are dropped, not judged; the model alone never condemns cproc.', ref='4/C04'),
+ 'C05': dict(cat='exploration', tech='exhaustive differential typing table: _Generic selection and __builtin_types_compatible_p results emitted as data vs clang --target (3 targets) and gcc',
+             text='All (operator, left kind, right kind) triples over 20 binary operators and 47 operand kinds (basic types, enum flavours, bit-fields of 10 widths), unary/assignment forms, literal typing over base x suffix x magnitude, hand-written pointer/member/decay/qualifier cases against near-miss types, random derived-type pairs and the redeclaration / pointer-assignment judgements derived from them.',
+             note='exhaustive=true for the triple and literal tables only. Where gcc and clang disagree (bit-fields wider than int) the case is skipped on x86-64; GNU semantics of the compatibility built-in (top-level qualifier stripping) are kept out by comparing behind a pointer.', ref='4/C05'),
  'C03': dict(cat='exploration', tech='online validator (re-implemented QBE parse/typecheck/SSA rules) over every accepted output; strace write-fault injection',
              text='Every module printed with exit status 0 (suite, corpus, generated, odd-shaped and mutated inputs, cproc\'s own sources; three targets) is parsed and checked by an independent IL validator; output faults are injected at the k-th write.',
              note='Trusted: vf.ilcheck (silent on the 159 stored .qbe files and the self-compiled IL); data sizes vs C objects are judged by C06/C07.', ref='4/C03'),
